@@ -1,4 +1,4 @@
-import MpsVerif.Proofs.AFifoAll
+import MpsVerif.Proofs.AFifoLive
 /-!
 # C16 — async variants give the same answers as their sync counterparts
 
@@ -179,6 +179,32 @@ theorem C16_async_eq_sync_prefix (ca cs : Cfg) (hpf : ca.preFail = cs.preFail) (
   · rw [hsp, hlen]
     unfold spec result
     simp only [hpf, hre]
+
+/-! ### The async iteration ends whenever the sync one does ("same answers" includes "an answer") -/
+
+/-- every execution of the async model is finite: no action list is longer than `9·n + 10` -/
+theorem C16_async_terminates (c : Cfg) (as : List Act) (s : State)
+    (hr : Core.run (step c) init as = some s) : as.length ≤ 9 * c.n + 10 := by
+  have := Core.length_le_measure (mu c)
+    (fun s a s' hs => mu_decreases c s a s' (step_sound c s s' a hs)) as init s hr
+  simp [mu, init, frank, crank] at this
+  omega
+
+/-- nothing blocks forever: in every reachable state in which the async generator has not yet
+    returned, the feeder task, a worker task or the consumer can move (`capacity ≥ 1`) — for every
+    failure plan, source ending (incl. a failing / `StopRequested` source), stop position and
+    completion order -/
+theorem C16_async_progress (c : Cfg) (hcap : 1 ≤ c.cap) (s : State)
+    (hr : Reachable c s) (hnf : s.cpc ≠ .closed) : ∃ a, (step c s a).isSome = true :=
+  progress_of_inv c hcap s (live_reachable c hr) hnf
+
+/-- hence every partial run extends to a complete one (to which `C16_async_eq_sync` applies) -/
+theorem C16_async_completes (c : Cfg) (hcap : 1 ≤ c.cap) (as : List Act) (s : State)
+    (h : Core.run (step c) init as = some s) :
+    ∃ bs s', Core.run (step c) init (as ++ bs) = some s' ∧ s'.cpc = .closed := by
+  obtain ⟨bs, s', hrun, hfin⟩ := can_complete c hcap (mu c s) s ⟨as, h⟩ (Nat.le_refl _)
+  refine ⟨bs, s', ?_, hfin⟩
+  rw [Core.run_append, h]; simpa using hrun
 
 /-- non-vacuity (spec, rejected first element): the preprocessor rejects element 0, element 1
     completes; the consumer receives `(0, PreError 0), (1, result 1)`; the worker ran for 1 only -/
